@@ -61,7 +61,7 @@ void bintFree(void *x) { (void) x; }
 
 /* ---- tables ------------------------------------------------------------ */
 #define MASK	((uintptr_t) 0xA5A5A5A5A5A5A5A5ULL)
-#define MAXBLK	32768
+#define MAXBLK	131072
 #define MAXPTR	4
 #define MAXROOT	8192
 #define MAXSECT	65536
@@ -74,6 +74,9 @@ struct hblk {
 	unsigned long	tsz;		/* stoSize at allocation */
 	int		gen;
 	struct hptr	ptr[MAXPTR];
+	long		fanN;		/* words 2..fanN+1 point to blocks fanBase.. (fan-out macro) */
+	long		fanBase;
+	int		fanMode;
 };
 static struct hblk	*blk;		/* mmap'd; made read-only while the collector runs */
 
@@ -110,6 +113,22 @@ patByte(int id, int gen, unsigned long i)
 	return (unsigned char) (1 + ((i + (unsigned long) id * 7 + (unsigned long) gen * 13) % 251));
 }
 
+/* offset of the pointer stored for leaf j of a fan-out / chain: aimed inside the leaf */
+static unsigned long
+leafOff(int mode, long j, unsigned long tsz)
+{
+	if (mode == 0 || tsz == 0) return 0;
+	if (mode == 1) return (unsigned long) (j * 7) % tsz;
+	return tsz - 1;
+}
+
+static uintptr_t
+fanWord(struct hblk *b, long j)
+{
+	struct hblk *l = &blk[b->fanBase + j];
+	return (l->xaddr ^ MASK) + leafOff(b->fanMode, j, l->tsz);
+}
+
 static void
 patFill(int id)
 {
@@ -120,6 +139,7 @@ patFill(int id)
 	for (i = 0; i < n; i++) p[i] = patByte(id, b->gen, i);
 	for (k = 0; k < MAXPTR; k++) if (b->ptr[k].used)
 		((uintptr_t *) p)[b->ptr[k].slot] = b->ptr[k].xval ^ MASK;
+	{ long j; for (j = 0; j < b->fanN; j++) ((uintptr_t *) p)[2 + j] = fanWord(b, j); }
 	p = 0;
 }
 
@@ -143,6 +163,11 @@ patCheckN(int id, int gen, unsigned long n, unsigned char *p)
 					if (p[i] == ((unsigned char *) &v)[i - lo]) ok = 1;
 					v = 0;
 				}
+			}
+			if (!ok && b->fanN && i / 8 >= 2 && (long) (i / 8) < 2 + b->fanN) {
+				uintptr_t v = fanWord(b, (long) (i / 8) - 2);
+				if (p[i] == ((unsigned char *) &v)[i % 8]) ok = 1;
+				v = 0;
 			}
 			if (!ok) return (long) i;
 		}
@@ -383,7 +408,8 @@ scrub(void)
 static __attribute__((noinline)) void
 doGc(void)
 {
-	static char freed[65536], rel[4096];
+	static char freed[2 << 20], rel[4096];
+	char *fp = freed;
 	int id, ok = 1;
 	freed[0] = rel[0] = 0;
 	scrub();
@@ -397,8 +423,8 @@ doGc(void)
 	for (id = 0; id <= maxId; id++) if (blk[id].live) {
 		if (!stoIsPointer((Pointer) (blk[id].xaddr ^ MASK))) {
 			blk[id].live = 0;
-			snprintf(freed + strlen(freed), sizeof freed - strlen(freed), "%s%d",
-				 freed[0] ? "," : "", id);
+			if (fp - freed < (long) sizeof freed - 16)
+				fp += sprintf(fp, "%s%d", fp == freed ? "" : ",", id);
 		}
 	}
 	sectPurge(rel, sizeof rel);
@@ -409,15 +435,86 @@ doGc(void)
 #include <sys/wait.h>
 #include <unistd.h>
 
+/* internal allocation for the macro ops: no output */
+static int
+mAlloc(int id, unsigned long n, unsigned code)
+{
+	Pointer p = (Pointer) stoAlloc(code, n);
+	if (!p) return 0;
+	memset(&blk[id], 0, sizeof blk[id]);
+	if (id > maxId) maxId = id;
+	blk[id].live = 1; blk[id].xaddr = (uintptr_t) p ^ MASK; blk[id].req = n;
+	blk[id].tsz = stoSize(p);
+	p = 0;
+	return 1;
+}
+
+static void
+mSetPtr(int id, int k, long slot, uintptr_t v)
+{
+	blk[id].ptr[k].used = 1; blk[id].ptr[k].slot = slot; blk[id].ptr[k].xval = v ^ MASK;
+}
+
+static void
+mPrintBlocks(int first, long n)
+{
+	long i;
+	printf(" | blocks=");
+	for (i = 0; i < n; i++)
+		printf("%s%lx:%lu", i ? ";" : "", (unsigned long) (blk[first + i].xaddr ^ MASK), blk[first + i].tsz);
+}
+
+/* K first n cellsz leafsz nslot lslot noff lmode:
+ * a chain of n cells (ids first..first+n-1), cell i holds in word nslot a pointer to
+ * cell i+1 (+noff bytes) and in word lslot a pointer into its own leaf (ids first+n..first+2n-1). */
+static __attribute__((noinline)) void
+doChain(long first, long n, long cellsz, long leafsz, long nslot, long lslot, long noff, long lmode)
+{
+	long i;
+	for (i = 0; i < n; i++)
+		if (!mAlloc((int) (first + i), (unsigned long) cellsz, 5) ||
+		    !mAlloc((int) (first + n + i), (unsigned long) leafsz, 6)) {
+			printf("K %ld null |", first); tail(); return;
+		}
+	for (i = 0; i < n; i++) {
+		struct hblk *l = &blk[first + n + i];
+		if (i + 1 < n) mSetPtr((int) (first + i), 0, nslot, (blk[first + i + 1].xaddr ^ MASK) + (uintptr_t) noff);
+		mSetPtr((int) (first + i), 1, lslot, (l->xaddr ^ MASK) + leafOff((int) lmode, i, l->tsz));
+	}
+	for (i = 0; i < 2 * n; i++) patFill((int) (first + i));
+	printf("K %ld %ld", first, n);
+	mPrintBlocks((int) first, 2 * n);
+	tail();
+}
+
+/* W id n leafsz first lmode: one block of n+2 words whose words 2..n+1 point into n leaves */
+static __attribute__((noinline)) void
+doFan(long id, long n, long leafsz, long first, long lmode)
+{
+	long i;
+	for (i = 0; i < n; i++)
+		if (!mAlloc((int) (first + i), (unsigned long) leafsz, 6)) { printf("W %ld null |", id); tail(); return; }
+	if (!mAlloc((int) id, (unsigned long) (8 * (n + 2)), 7)) { printf("W %ld null |", id); tail(); return; }
+	blk[id].fanN = n; blk[id].fanBase = first; blk[id].fanMode = (int) lmode;
+	for (i = 0; i < n; i++) patFill((int) (first + i));
+	patFill((int) id);
+	printf("W %ld %ld", id, n);
+	mPrintBlocks((int) id, 1);
+	printf(" leaves=");
+	for (i = 0; i < n; i++)
+		printf("%s%lx:%lu", i ? ";" : "", (unsigned long) (blk[first + i].xaddr ^ MASK), blk[first + i].tsz);
+	tail();
+}
+
 static char	**lines; static long nlines = 0, *match;
 
 static void
 runOne(char *line, long step)
 {
 	char op = line[0];
-	long a = 0, b = 0, c = 0, d = 0;
+	long a = 0, b = 0, c = 0, d = 0, e = 0, f = 0, g = 0, h = 0;
 	int ok = 1;
-	sscanf(line + 1, "%ld %ld %ld %ld", &a, &b, &c, &d);
+	sscanf(line + 1, "%ld %ld %ld %ld %ld %ld %ld %ld", &a, &b, &c, &d, &e, &f, &g, &h);
 	hJmpOk = 1;
 	if (setjmp(hJmp)) ok = 0;
 	else switch (op) {
@@ -428,6 +525,8 @@ runOne(char *line, long step)
 	case 'p': doSetPtr((int) a, b, (int) c, d); break;
 	case 'R': doSetRoot(a, (int) b, c); break;
 	case 'g': doGc(); break;
+	case 'K': doChain(a, b, c, d, e, f, g, h); break;
+	case 'W': doFan(a, b, c, d, e); break;
 	case 'd': blk[a].live = 0; printf("D %ld |", a); tail(); break;
 	case 'L': stoCtl(StoCtl_GcLevel, (int) a); printf("L %ld |", a); tail(); break;
 	default:  printf("? %c\n", op); break;
